@@ -13,7 +13,7 @@ from collections import defaultdict, deque
 
 ITER_KINDS = {"iter", "keys", "values", "drain", "into_iter", "into_keys", "into_values"}
 READ_OPS = {"peek", "peek_entry", "peek_lru", "peek_mru", "contains", "len", "is_empty",
-            "current_size", "max_size", "capacity", "debug", "iter", "keys", "values", "clone"}
+            "current_size", "max_size", "capacity", "debug", "iter", "keys", "values", "clone", "clone_from"}
 
 
 def parse_dump(path):
@@ -274,6 +274,8 @@ def crash_segments(g, rnd, out, max_edges):
             sweep = ["hash", "eq", "size", "clone"]
             if op in ("mutate", "retain"):
                 sweep += ["closure", "closure_after"]
+            if op == "try_reserve" and not e["a"]["fl"]:
+                sweep += ["alloc"]        # refuse exactly the n-th allocation, n = 1, 2, ...
             seg = {"prefix": prefix, "op": strip_expect(script_line(e)),
                    "suffix": suffix_ops(e["c"], nkeys), "sweep": sweep}
             fh.write(json.dumps(seg, separators=(",", ":")) + "\n")
